@@ -265,6 +265,9 @@ fn replay_schedule(case: &Value, rep: &mut Report, rng: &mut Rng) {
                 rep.checks += 1;
                 if let Some(d) = diff_flat_close(&fa, &fr, 1e-5) {
                     rep.mismatch("C04", "second_learn_call_differs_from_continued_reference_descent", &id, json!({"arch": name, "diff": d}), case);
+                    // C03, "after any sequence of steps": the optimizer state (and nothing else) is what the second call
+                    // inherits from the first
+                    rep.mismatch("C03", "optimizer_history_not_continued_across_learn_calls", &id, json!({"arch": name, "diff": d}), case);
                 }
             }
         } else if let (Ok(_), Ok(_), Err(e)) = (&learned, &reference, &second) {
